@@ -2,6 +2,7 @@
 #include <igris/sync/syslock.h>
 #include <igris/syncxx/event.h>
 #include <igris/util/macro.h>
+#include <igris/util/verif_hook.h>
 
 struct linux_waiter
 {
@@ -27,7 +28,9 @@ int wait_current_schedee(igris::dlist_base *head, int priority, void **future)
         head->move_front(waiter.w.lnk);
     else
         head->move_back(waiter.w.lnk);
+    IGRIS_VERIF_POINT(IGRIS_VERIF_WAIT_PARKED, &waiter.w.lnk, priority);
     system_unlock();
+    IGRIS_VERIF_POINT(IGRIS_VERIF_WAIT_GAP, &waiter.w.lnk, 0);
 
     // auto save = system_lock_save();
     waiter.event.wait();
